@@ -430,8 +430,15 @@ class SynEngine:
         self.judge_circuit(result, n, m, N, care, vals, basis_tts, cons, cons_calls, desc)
         self.res.states.add(observe.snap(result)[0].shape_digest() if result is not None else 'none')
         # find_circuit twice on the same finder
-        if rng.random() < 0.2 and not op.get('f'):
+        if rng.random() < 0.25 and not op.get('f'):
             try:
+                if result is not None and rng.random() < 0.6:
+                    # the caller owns the returned circuit and edits it (post-processing) before asking again
+                    lab = 'zz_post'
+                    result.add_inputs([lab])
+                    result.emplace_gate('zz_g', self.GT['NOT'], (lab,))
+                    result.set_outputs(['zz_g'])
+                    st.bump('returned-circuit-edited-before-second-call')
                 again = finder.find_circuit(**kw) if solver == 'default' else finder.find_circuit(solver, **kw)
                 self.judge_circuit(again, n, m, N, care, vals, basis_tts, cons, cons_calls, desc + ' [second call]')
                 st.bump('find_circuit-called-twice')
